@@ -57,6 +57,10 @@ type Peer struct {
 	werr     error
 	wdone    chan struct{}
 
+	// Pace, if set, is called by the writer goroutine after each queued
+	// buffer has been written (used to wait until the peer consumed it).
+	Pace func()
+
 	nextTag  uint32
 	frames   int64
 	quit     chan struct{}
@@ -117,6 +121,8 @@ func (p *Peer) writer() {
 				p.mu.Lock()
 				p.werr = err
 				p.mu.Unlock()
+			} else if p.Pace != nil {
+				p.Pace()
 			}
 		}
 		atomic.AddInt64(&p.wpending, -1)
@@ -275,6 +281,17 @@ func (p *Peer) SendFrame(frame []byte) {
 		p.mu.Unlock()
 	}
 	p.SendRaw(frame)
+}
+
+// Expect accounts a request frame as outstanding without sending it (the
+// caller delivers the bytes itself, e.g. as part of a larger write).
+func (p *Peer) Expect(frame []byte) {
+	if len(frame) >= 7 {
+		_, t, tag := wire.Header(frame)
+		p.mu.Lock()
+		p.outstanding[tag] = append(p.outstanding[tag], t)
+		p.mu.Unlock()
+	}
 }
 
 // Send encodes and queues a request with the given tag.
